@@ -586,6 +586,10 @@ Definition spec_table (c : tcase) : list (N * bool) :=
    (21, (node_eqb (w_root (t_pre c)) (w_root (t_post c))));
    (18, ((if t_ok c then spec_valid_log (t_pre c) (fst (run_args c)) (snd (run_args c)) (run_log c) else true)));
    (19, ((if t_ok c then spec_consistent (t_sems c) (t_post c) (fst (run_args c)) else true)));
+   (29, (match t_out c with
+          | OStatus l => negb (match l with [] => true | _ => false end) && forallb (fun s => negb (ss_match (snd s))) l
+          | _ => false
+          end));
    (28, (match t_cmd c with
           | CPush ts sg | CFetch ts sg => if t_ok c then spec_visit (t_pre c) ts sg (run_log c) else true
           | _ => true
